@@ -35,7 +35,7 @@ ASSUMPTIONS = [
     "a substituted text that itself contains braces is re-resolved by the library: covered by the recorded finding template-reresolves-substituted-braces, otherwise not generated",
 ]
 FLOORS = {"values_compared": (6000, 100000), "missing_key_failures": (800, 15000), "transitive_substitutions": (1200, 20000),
-          "outcome_changing_present_paths": (4000, 80000), "outcome_changing_absent_paths": (800, 15000), "escaped_brace_cases": (300, 5000), "hostile_key_steps": (8000, 150000), "hostile_fail_then_complete": (300, 6000), "whole_parameter_cases": (14, 14)}
+          "outcome_changing_present_paths": (4000, 80000), "outcome_changing_absent_paths": (800, 15000), "escaped_brace_cases": (300, 5000), "hostile_key_steps": (8000, 150000), "hostile_fail_then_complete": (300, 6000), "whole_parameter_cases": (14, 14), "shadowing_parameter_cases": (10, 10)}
 SHARDS_QUICK = 4
 
 PIECES = ["lit", "-", "{A}", "{B}", "{C}", "{S.X}", "{S.Y}", "{T.X}", "{L.0}", "{L.1}", "{D}", "{:p:}", "{:q:}", "\\{esc\\}", "x\\{y\\}z",
@@ -379,10 +379,29 @@ def known_finding_reproducer(ctx):
                           {"mechanism": "template-reresolves-substituted-braces", "template": repr(t), "options": o})
 
 
+def shadowing_parameters(ctx):
+    """A parameter that reports an option the text reads too, WITHOUT reporting what that option's value refers to in the
+    caller's dictionary (a pre-set shadows it for the parameter only): the text's own reference still reads it."""
+    def T(text, params):
+        return {"datasets": {}, "root": {"k": "tmpl", "text": text, "params": params}}
+
+    W = lambda key, P: {"k": "with", "spec": {"k": "opt", "key": key, "dk": "const", "dv": "wd"}, "P": P, "force": True}  # noqa: E731
+    cases = [
+        (T("{A}-{:p:}", [["p", W("A", {"B": "preset"})]]), [{"A": "{B}", "B": "caller"}, {"A": "{B}"}, {"A": "{B}", "B": 2, "C": 1}, {"A": "x{C}", "C": "{B}", "B": 1}]),
+        (T("{:p:}/{S.X}", [["p", W("S.X", {"T": {"X": 0}})]]), [{"S": {"X": "{T.X}"}, "T": {"X": 5}}, {"S": {"X": "{T.X}"}}, {"S": {"X": ["{T.X}", "{A}"]}, "T": {"X": 1}, "A": 2}]),
+        (T("{:p:}{:q:}{C}", [["p", W("C", {"A": 1})], ["q", W("C", {"B": 1})]]), [{"C": "{A}{B}", "A": "a", "B": "b"}, {"C": "{A}{B}", "A": "a"}, {"C": ["{A}", "{B}"], "B": "b", "A": 0}]),
+    ]
+    for program, dicts in cases:
+        for o in dicts:
+            ctx.count("shadowing_parameter_cases")
+            case(ctx, program, o, tag="shadowing-parameter")
+
+
 def run(ctx):
     if ctx.shard == 0:
         known_finding_reproducer(ctx)
         whole_parameter(ctx)
+        shadowing_parameters(ctx)
     n = ctx.n(2400, 40000)
     for i in range(n):
         r = case_rng(ctx, i)
